@@ -31,22 +31,49 @@ func (v *VerifSupervisor) CommitConnected() bool  { return v.s.CommitConnected()
 func (v *VerifSupervisor) CommitSelected() bool   { return v.s.CommitSelected() }
 func (v *VerifSupervisor) CommitSelectLost() bool { return v.s.CommitSelectLost() }
 
-// Inject enqueues a raw event (0 tcpUp, 1 selectAccepted, 2 selectLost, 3 disconnect, 4 close, 5 t7).
+// Inject enqueues a raw, UNTAGGED event (0 tcpUp, 1 selectAccepted, 2 selectLost, 3 disconnect, 4 close,
+// 5 t7): the inject half of a commit, requestClose's evClose, or what a unit test injects.
 func (v *VerifSupervisor) Inject(ev uint8) { v.s.inject(fsmEvent(ev)) }
+
+// InjectDisconnect is connection.TCPDown's supervisor half: an evDisconnect tagged with the current TCP
+// generation. InjectT7 is connection.T7Expired's: an evT7Timeout tagged with the current NOT-SELECTED dwell.
+func (v *VerifSupervisor) InjectDisconnect() { v.s.injectDisconnect() }
+func (v *VerifSupervisor) InjectT7()         { v.s.injectT7Timeout() }
+
+// Generation / Dwell read the sequence numbers the injectors capture and step compares against.
+func (v *VerifSupervisor) Generation() uint64 { return v.s.generation.Load() }
+func (v *VerifSupervisor) Dwell() uint64      { return v.s.dwell.Load() }
 
 // CASOnly performs only the CAS half of a commit (from -> to) and reports success; the harness
 // performs the inject half later with Inject, to open the CAS->inject window. For the
 // Selected -> NotSelected commit it mirrors CommitSelectLost's announcement protocol
-// (deselectPending is raised before the CAS and lowered again if the CAS fails).
+// (deselectPending is raised before the CAS and lowered again if the CAS fails) and opens the new
+// NOT-SELECTED dwell the same way; for the NotConnected -> NotSelected commit it mirrors
+// CommitConnected's (generation and dwell advanced before the CAS, taken back if it fails).
 func (v *VerifSupervisor) CASOnly(from, to ConnState) bool {
-	if from == SelectedState && to == NotSelectedState {
+	switch {
+	case from == SelectedState && to == NotSelectedState:
 		v.s.deselectPending.Add(1)
+		v.s.dwell.Add(1)
 
 		if v.s.state.CompareAndSwap(uint32(from), uint32(to)) {
 			return true
 		}
 
 		v.s.deselectPending.Add(-1)
+		v.s.dwell.Add(^uint64(0))
+
+		return false
+	case from == NotConnectedState && to == NotSelectedState:
+		v.s.generation.Add(1)
+		v.s.dwell.Add(1)
+
+		if v.s.state.CompareAndSwap(uint32(from), uint32(to)) {
+			return true
+		}
+
+		v.s.generation.Add(^uint64(0))
+		v.s.dwell.Add(^uint64(0))
 
 		return false
 	}
@@ -65,7 +92,9 @@ func (v *VerifSupervisor) StepNext(afterLoad func()) (ev uint8, ok bool) {
 		v.s.step(e)
 		v.s.testHookAfterStateLoad = nil
 
-		return uint8(e), true
+		kind, _, _ := e.split()
+
+		return uint8(kind), true
 	default:
 		return 0, false
 	}
